@@ -115,10 +115,14 @@ def decWFn (s : String) : WFn :=
 
 def decWFns (s : String) : List WFn := if s == "-" then [] else (s.splitOn ",").map decWFn
 
+/-- `<ctorNameId>~<metaId>@<fns>` -/
 def decClassD (s : String) : ClassD :=
   match s.splitOn "@" with
-  | [c, fs] => ⟨c.toNat!, decWFns fs⟩
-  | _ => ⟨0, []⟩
+  | [c, fs] =>
+    match c.splitOn "~" with
+    | [cn, m] => ⟨cn.toNat!, decWFns fs, m.toNat!⟩
+    | _ => ⟨c.toNat!, decWFns fs, 0⟩
+  | _ => ⟨0, [], 0⟩
 
 def decScopeD (s : String) : ScopeD :=
   match s.splitOn "#" with
@@ -132,7 +136,13 @@ def handleRegs : List String → String
   | [sc] =>
     let scopes := (sc.splitOn "/").map decScopeD
     let classes := scopes.flatMap (·.classes)
-    "M=" ++ encRegs (moduleRegs scopes) ++ String.join (classes.map (fun c => " C=" ++ encRegs (classRegs c)))
+    "M=" ++ encRegs (moduleRegs scopes) ++ String.join (classes.map (fun c => " C=" ++ encRegs (classRegs c))) ++
+      " R=" ++ encNats (registry classes) ++
+      String.join (classes.map (fun c =>
+        let st := classSites c
+        " S=" ++ (match st.created with | none => "-" | some n => toString n) ++ ":" ++ toString st.attached ++ ":" ++
+          toString st.demanded)) ++
+      " A=" ++ encNats ((List.range classes.length).map (fun i => (argDemanded classes i).getD 0))
   | _ => "bad-op"
 
 end Driver
